@@ -482,64 +482,13 @@ theorem deHeaderEntry_append (h : Header) (rest : Bytes) (hw : WFHeader h) :
 theorem optWF_iff {α} (P : α → Prop) (o : Option α) : optWF P o ↔ ∃ x, o = some x ∧ P x := by
   cases o <;> simp [optWF]
 
-theorem serVersion_ok (v : VersionMsg) (h : WFVersion v) (hg : 70001 ≤ v.nVersion) :
-    serVersion v = .ok (versionPayload v) := by
+theorem serVersion_ok (v : VersionMsg) (h : WFVersion v) : serVersion v = .ok (versionPayload v) := by
   obtain ⟨h1, h2, _, h3, h4, h5, ⟨h6, _⟩, g106, g209, g70001⟩ := h
-  have c1 : v.nVersion ≥ 106 := by omega
-  have c2 : v.nVersion ≥ 209 := by omega
-  have c3 : v.nVersion ≥ 70001 := by omega
-  rw [if_pos c1] at g106
-  rw [if_pos c2] at g209
-  rw [if_pos c3] at g70001
-  obtain ⟨g7, g8, g9⟩ := g106
-  obtain ⟨fr, hfr, hfw, _⟩ := (optWF_iff _ _).mp g7
-  obtain ⟨n, hn, hn2⟩ := (optWF_iff _ _).mp g8
-  obtain ⟨s, hs, hs2⟩ := (optWF_iff _ _).mp g9
-  obtain ⟨ht, hh, hh1, hh2⟩ := (optWF_iff _ _).mp g209
   have := maxSize_lt
   unfold serVersion versionPayload
-  rw [hfr, hn, hs, hh]
-  simp [c1, c2, c3, optBytes, packI4_ok _ h1 h2,
-    packU_ok 8 _ (show v.nServices < 256 ^ 8 by norm_num; omega), packI8_ok _ h4 h5,
-    serAddr_ok true _ h6, serAddr_ok true _ hfw,
-    packU_ok 8 _ (show n < 256 ^ 8 by norm_num; omega), serVarStr, serBytes_ok s (by omega),
-    packI4_ok _ hh1 hh2, packU_ok 1 _ (show v.fRelay < 256 ^ 1 by norm_num; omega)]
-
-/-- what the library writes for 209 ≤ nVersion < 70001: the prescribed payload followed by a relay
-    byte the protocol version does not carry -/
-theorem serVersion_lt_70001 (v : VersionMsg) (h : WFVersion v) (hlo : 209 ≤ v.nVersion)
-    (hhi : v.nVersion < 70001) : serVersion v = .ok (versionPayload v ++ [1]) := by
-  obtain ⟨h1, h2, _, h3, h4, h5, ⟨h6, _⟩, g106, g209, g70001⟩ := h
-  have c1 : v.nVersion ≥ 106 := by omega
-  have c2 : v.nVersion ≥ 209 := by omega
-  have c3 : ¬ v.nVersion ≥ 70001 := by omega
-  rw [if_pos c1] at g106
-  rw [if_pos c2] at g209
-  rw [if_neg c3] at g70001
-  obtain ⟨g7, g8, g9⟩ := g106
-  obtain ⟨fr, hfr, hfw, _⟩ := (optWF_iff _ _).mp g7
-  obtain ⟨n, hn, hn2⟩ := (optWF_iff _ _).mp g8
-  obtain ⟨s, hs, hs2⟩ := (optWF_iff _ _).mp g9
-  obtain ⟨ht, hh, hh1, hh2⟩ := (optWF_iff _ _).mp g209
-  have := maxSize_lt
-  unfold serVersion versionPayload
-  rw [hfr, hn, hs, hh, g70001]
-  simp [c1, c2, c3, optBytes, packI4_ok _ h1 h2,
-    packU_ok 8 _ (show v.nServices < 256 ^ 8 by norm_num; omega), packI8_ok _ h4 h5,
-    serAddr_ok true _ h6, serAddr_ok true _ hfw,
-    packU_ok 8 _ (show n < 256 ^ 8 by norm_num; omega), serVarStr, serBytes_ok s (by omega),
-    packI4_ok _ hh1 hh2, packU_ok 1 1 (by norm_num), leBytes]
-
-/-- below 209 the object `msg_deser` builds has `None` fields and `msg_ser` raises -/
-theorem serVersion_lt_209 (v : VersionMsg) (h : WFVersion v) (hhi : v.nVersion < 209) :
-    ∃ e, serVersion v = .error e := by
-  obtain ⟨h1, h2, _, h3, h4, h5, ⟨h6, _⟩, g106, g209, _⟩ := h
-  have c2 : ¬ v.nVersion ≥ 209 := by omega
-  rw [if_neg c2] at g209
-  have := maxSize_lt
-  unfold serVersion
   rw [packI4_ok _ h1 h2, packU_ok 8 _ (show v.nServices < 256 ^ 8 by norm_num; omega), packI8_ok _ h4 h5,
-    serAddr_ok true _ h6, g209]
+    serAddr_ok true _ h6]
+  simp only [Res.ok_bind]
   by_cases c1 : v.nVersion ≥ 106
   · rw [if_pos c1] at g106
     obtain ⟨g7, g8, g9⟩ := g106
@@ -547,13 +496,23 @@ theorem serVersion_lt_209 (v : VersionMsg) (h : WFVersion v) (hhi : v.nVersion <
     obtain ⟨n, hn, hn2⟩ := (optWF_iff _ _).mp g8
     obtain ⟨s, hs, hs2⟩ := (optWF_iff _ _).mp g9
     rw [hfr, hn, hs]
-    exact ⟨structError, by
-      simp [serAddr_ok true _ hfw, packU_ok 8 _ (show n < 256 ^ 8 by norm_num; omega), serVarStr,
-        serBytes_ok s (by omega)]⟩
-  · rw [if_neg c1] at g106
-    obtain ⟨g7, _, _⟩ := g106
-    rw [g7]
-    exact ⟨.py "AttributeError", by simp⟩
+    by_cases c2 : v.nVersion ≥ 209
+    · rw [if_pos c2] at g209
+      obtain ⟨ht, hh, hh1, hh2⟩ := (optWF_iff _ _).mp g209
+      rw [hh]
+      by_cases c3 : v.nVersion ≥ 70001
+      · rw [if_pos c3] at g70001
+        simp [c1, c2, c3, optBytes, serAddr_ok true _ hfw, packU_ok 8 _ (show n < 256 ^ 8 by norm_num; omega),
+          serVarStr, serBytes_ok s (by omega), packI4_ok _ hh1 hh2,
+          packU_ok 1 _ (show v.fRelay < 256 ^ 1 by norm_num; omega)]
+      · simp [c1, c2, c3, optBytes, serAddr_ok true _ hfw, packU_ok 8 _ (show n < 256 ^ 8 by norm_num; omega),
+          serVarStr, serBytes_ok s (by omega), packI4_ok _ hh1 hh2]
+    · have c3 : ¬ v.nVersion ≥ 70001 := by omega
+      simp [c1, c2, c3, optBytes, serAddr_ok true _ hfw, packU_ok 8 _ (show n < 256 ^ 8 by norm_num; omega),
+        serVarStr, serBytes_ok s (by omega)]
+  · have c2 : ¬ v.nVersion ≥ 209 := by omega
+    have c3 : ¬ v.nVersion ≥ 70001 := by omega
+    simp [c1, c2, c3]
 
 theorem deVersion_append (v : VersionMsg) (rest : Bytes) (h : WFVersion v) :
     deVersion (versionPayload v ++ rest) = .ok (.version v, rest) := by
@@ -839,10 +798,10 @@ theorem deBlock_append (b : Block) (rest : Bytes) (h : WFBlock b) :
 
 /-! ### every message type: `msg_ser` gives the Spec payload, `msg_deser` inverts it -/
 
-theorem msgSer_ok (m : Msg) (h : WFMsg m) (hg : serGate m) : msgSer m = .ok (payload m) := by
+theorem msgSer_ok (m : Msg) (h : WFMsg m) : msgSer m = .ok (payload m) := by
   have hms := maxSize_lt
   cases m with
-  | version v => exact serVersion_ok v h hg
+  | version v => exact serVersion_ok v h
   | verack => rfl
   | addr as => exact serVector_ok (serAddr false) (netAddr true) as h.1 (fun a ha => serAddr_ok false a (h.2 a ha))
   | alert m s =>
